@@ -502,6 +502,27 @@ class USys:
                 if its != st.model or vals != sorted(st.model.values()) or sub != st.model:
                     self.viol(st, op, "items-mismatch", "items()/values()/h[k] disagree with the successful puts")
                     ok = False
+                elif len(st.model) >= 2:
+                    # the iterators are lazy: other reads through the same handle happen between two of their steps
+                    try:
+                        inter = []
+                        for k, v in h.items():
+                            for k2 in st.model:
+                                h.get(k2)
+                            inter.append((k, v))
+                        lock = [(kv, v2) for kv, v2 in zip(h.items(), h.values())]
+                        vinter = []
+                        for v in h.values():
+                            h.keys()
+                            h.get(next(iter(st.model)))
+                            vinter.append(v)
+                    except Exception as e:
+                        self.viol(st, op, "items-raised[interleaved]", f"items()/values() interleaved with other reads raised {exc_name(e)}")
+                        ok = False
+                    else:
+                        if dict(inter) != st.model or len(inter) != len(st.model) or any(kv[1] != v2 or st.model.get(kv[0]) != v2 for kv, v2 in lock) or len(lock) != len(st.model) or sorted(vinter) != sorted(st.model.values()):
+                            self.viol(st, op, "items-mismatch[interleaved]", "items()/values(), consumed step by step with other reads through the same handle in between, disagree with the successful puts")
+                            ok = False
         # the file itself: parse with the harness's own reader
         if st.exists:
             recs, hdr, clean = parse_ukv(self.file_bytes_flushed(st))
@@ -1099,6 +1120,15 @@ class CSys:
                     if k in c:
                         self.viol(st, op, "contains-absent", "`k in c` is true for a never-put key")
                         ok = False
+                    # reading a key that is neither listed nor in the file must not produce a value (e.g. one
+                    # remembered from before the library was created anew)
+                    try:
+                        v = c[k]
+                    except Exception:
+                        pass
+                    else:
+                        self.viol(st, op, "get-of-absent-key", f"c[k] of a key that is not in the library returned {v[:12]!r} instead of raising")
+                        ok = False
             if ok:
                 try:
                     its = dict(c.items())
@@ -1235,7 +1265,7 @@ def run(ctx):
     layer("C_reduced_alphabet_depth", lambda c: CSys(c, nhandles=3 if thorough else 2, keys=["a", "k256"], vals={"x": b"x"}, bufs=["dflt", "large"], label="C3", first_acc=None), 10 if thorough else 9)
     # the library created anew (a handle constructed with overwrite=True and another header) while older
     # handles live on: they have to follow at their next session
-    layer("C_recreated_depth", lambda c: CSys(c, nhandles=3 if thorough else 2, keys=["a", "b"], vals={"x": b"x"}, bufs=["dflt", "large"] if thorough else ["dflt"], label="C7", first_acc=None, recreate=True), 10 if thorough else 9)
+    layer("C_recreated_depth", lambda c: CSys(c, nhandles=3 if thorough else 2, keys=["a", "b"], vals={"x": b"x", "yy": b"yy"}, bufs=["dflt", "large"] if thorough else ["dflt"], label="C7", first_acc=None, recreate=True), 10 if thorough else 9)
     # a second library on another path used by the same process, sessions on both open at the same time
     layer("C_with_second_library_depth", lambda c: CSys(c, nhandles=1, keys=["a", "b"], vals={"x": b"x"}, bufs=["dflt", "large"], label="C5", first_acc=None, bystander=True), 12 if thorough else 8)
     # header fields given at creation through the Collection constructor (each alone and together)
